@@ -223,8 +223,9 @@ def setup_worker(k):
     sh(f"git -C {REPO} worktree prune")
     sh(f"cp -r {REPO} {w}/repo && rm -rf {w}/repo/target {w}/repo/.git && cd {w}/repo && git init -q && git add -A && git -c user.email=a@b -c user.name=x commit -qm base")
     os.makedirs(f"{w}/verif")
+    src = os.environ.get("MUTSWEEP_VERIF", VERIF)  # (a worktree of an earlier commit of /verif: "before" runs)
     for d in ("harness", "corpus", "regress", "known_findings.json", "check"):
-        sh(f"cp -r {VERIF}/{d} {w}/verif/{d}")
+        sh(f"cp -r {src}/{d} {w}/verif/{d}")
     sh(f"rm -rf {w}/verif/harness/target {w}/verif/harness/fuzz/target")
     ct = f"{w}/verif/harness/Cargo.toml"
     s = open(ct).read().replace('path = "/repo"', f'path = "{w}/repo"')
